@@ -11,6 +11,7 @@ import (
 	"io"
 	"log"
 	"reflect"
+	"runtime"
 	"strconv"
 	"strings"
 	"sync"
@@ -57,6 +58,12 @@ type faulter struct {
 	mu    sync.Mutex
 	armed string // "" | "err" | "nil" | "int:N" | "bulk:S" | "status:S"
 	hits  int
+	// the gate on the wire: the FIRST script command that arrives while it is armed is held in the hook
+	// (its connection's reader goroutine waits; other connections are served) until the executor opens it
+	gate    bool
+	arrived int           // script commands that arrived since the gate was armed
+	open    chan struct{} // closed by the executor
+	mr      *miniredis.Miniredis
 }
 
 func (f *faulter) hook(c *server.Peer, cmd string, args ...string) bool {
@@ -68,7 +75,20 @@ func (f *faulter) hook(c *server.Peer, cmd string, args ...string) bool {
 	if a != "" {
 		f.hits++
 	}
+	var wait chan struct{}
+	if f.gate {
+		f.arrived++
+		if f.arrived == 1 {
+			wait = f.open
+		}
+	}
 	f.mu.Unlock()
+	if wait != nil {
+		select {
+		case <-wait:
+		case <-time.After(10 * time.Second):
+		}
+	}
 	switch {
 	case a == "":
 		return false
@@ -88,6 +108,80 @@ func (f *faulter) hook(c *server.Peer, cmd string, args ...string) bool {
 	}
 	return true
 }
+
+func (f *faulter) armGate() {
+	f.mu.Lock()
+	f.gate, f.arrived, f.open = true, 0, make(chan struct{})
+	f.mu.Unlock()
+}
+
+func (f *faulter) seen() int {
+	f.mu.Lock()
+	defer f.mu.Unlock()
+	return f.arrived
+}
+
+func (f *faulter) openGate() {
+	f.mu.Lock()
+	if f.gate {
+		f.gate = false
+		close(f.open)
+	}
+	f.mu.Unlock()
+}
+
+// settle: whatever the lock code started in the background (a goroutine that is executing code of go-zero's
+// redis package - a frame of it, not a "created by" line - other than the executor's own callers) gets the chance
+// to finish before the next operation of the history: a call is over when everything it set in motion is
+// over.  Nothing of the kind exists in the unchanged tree (one look at the stacks).
+type census struct{ goroutines, conns int }
+
+func (f *faulter) census() census {
+	return census{runtime.NumGoroutine(), f.mr.CurrentConnectionCount()}
+}
+
+func (f *faulter) settle(before census) {
+	// the cheap test first: a call that left no additional goroutine behind - other than the server-side
+	// goroutine of every connection it opened - started nothing (looking at all stacks costs milliseconds once a
+	// run has accumulated thousands of parked client / server goroutines)
+	for k := 0; k < 4; k++ {
+		now := f.census()
+		if now.goroutines-before.goroutines <= 2*(now.conns-before.conns) { // two server-side goroutines per connection
+			return
+		}
+		runtime.Gosched()
+	}
+	hx.Quiesce(func(st string) bool {
+		if strings.Contains(st, "main.runCase") || strings.Contains(st, "main.c19Caller") || strings.Contains(st, "main.c19Holder") {
+			return false
+		}
+		for _, line := range strings.Split(st, "\n") {
+			if strings.HasPrefix(line, "github.com/zeromicro/go-zero/core/stores/redis.") {
+				return true
+			}
+		}
+		return false
+	}, 2*time.Second)
+}
+
+// the goroutines the executor itself starts for concurrent / overlapping calls run through this function, so
+// that their stacks can be told from goroutines started by go-zero
+func c19Caller(f func()) { f() }
+
+func callerParked() (parked bool, found bool) {
+	for _, st := range hx.Stacks() {
+		if strings.Contains(st, "main.c19Holder") {
+			head := st
+			if nl := strings.IndexByte(st, '\n'); nl >= 0 {
+				head = st[:nl]
+			}
+			return hx.Blocked(st) && !strings.Contains(head, "[IO wait") && !strings.Contains(head, "[sleep"), true
+		}
+	}
+	return false, false
+}
+
+func c19Holder(f func()) { f() }
 
 func (f *faulter) arm(kind string) {
 	f.mu.Lock()
@@ -122,7 +216,7 @@ func runCase(c Case) (out Out) {
 			mr.Close()
 		}
 	}()
-	f := &faulter{}
+	f := &faulter{mr: mr}
 	mr.Server().SetPreHook(f.hook)
 	store := redis.New(mr.Addr())
 	locks := make([]*redis.RedisLock, len(c.InstKey))
@@ -173,12 +267,55 @@ func runCase(c Case) (out Out) {
 	for _, op := range c.Ops {
 		switch op[0].(string) {
 		case "acq":
+			g0 := f.census()
 			out.Obs = append(out.Obs, call(num(op[1]), false, kindOf(op)))
+			f.settle(g0)
 		case "rel":
+			g0 := f.census()
 			out.Obs = append(out.Obs, call(num(op[1]), true, kindOf(op)))
+			f.settle(g0)
+		case "ovl": // ["ovl", h, p]: instance h's Acquire OVERLAPS instance p's Acquire, which is in flight on the wire
+			h, p := num(op[1]), num(op[2])
+			g0 := f.census()
+			f.armGate()
+			pdone, hdone := make(chan []bool, 1), make(chan []bool, 1)
+			go c19Caller(func() { pdone <- call(p, false, "") })
+			for k := 0; f.seen() < 1; k++ { // p's command has been written and is held by the store's hook
+				if k > 5000 {
+					f.openGate()
+					out.Err = "ovl: the first caller's command never arrived"
+					return
+				}
+				time.Sleep(time.Millisecond)
+			}
+			go c19Holder(func() { hdone <- call(h, false, "") })
+			// h's call either completes (its own command is served on another connection) or comes to rest
+			// inside the process (it waits for something p's call will deliver): then, and only then, p's
+			// command is let through
+			var hr []bool
+			still := 0
+			for k := 0; k < 3000 && hr == nil && still < 5; k++ {
+				select {
+				case hr = <-hdone:
+				case <-time.After(2 * time.Millisecond):
+					if parked, found := callerParked(); found && parked && f.seen() < 2 {
+						still++
+					} else {
+						still = 0
+					}
+				}
+			}
+			f.openGate()
+			pr := <-pdone
+			if hr == nil {
+				hr = <-hdone
+			}
+			f.settle(g0)
+			out.Obs = append(out.Obs, [][]bool{hr, pr})
 		case "par": // ["par", "acq"|"rel", [i, j, ...]]: the listed instances call concurrently
 			rel := op[1].(string) == "rel"
 			list := op[2].([]any)
+			g0 := f.census()
 			res := make([][]bool, len(list))
 			var wg sync.WaitGroup
 			start := make(chan struct{})
@@ -186,12 +323,15 @@ func runCase(c Case) (out Out) {
 				wg.Add(1)
 				go func(n int, i int64) {
 					defer wg.Done()
-					<-start
-					res[n] = call(i, rel, "")
+					c19Caller(func() {
+						<-start
+						res[n] = call(i, rel, "")
+					})
 				}(n, num(v))
 			}
 			close(start)
 			wg.Wait()
+			f.settle(g0)
 			out.Obs = append(out.Obs, res)
 		case "fault": // ["fault", i, "acq"|"rel", kind]
 			kind := op[3].(string)
@@ -199,7 +339,9 @@ func runCase(c Case) (out Out) {
 				failed = true
 			}
 			f.arm(kind)
+			g0 := f.census()
 			r := call(num(op[1]), op[2].(string) == "rel", "")
+			f.settle(g0)
 			if hits := f.disarm(); hits != 1 {
 				out.Err = "fault intercepted " + strconv.Itoa(hits) + " commands"
 				return
